@@ -1,5 +1,5 @@
 (* C12 correspondence cases: what the implementation answered, to be compared with the model *)
-From FB Require Export C12.Model C12.ModelForest.
+From FB Require Export C12.Model C12.ModelForest C12.ModelBytes.
 From FB Require Import C12.TheoryRT.   (* only for the decidable hypothesis enigma_okb / dir_okb *)
 
 (* code points below 128 as constants: the harness prints `c67` instead of `67` (a numeral costs a
@@ -62,7 +62,9 @@ Inductive case :=
 | CReadBytes (bs : list N) (r : res (list class))          (* read_into on raw bytes (possibly not UTF-8) *)
 | CReadDir (d : list (str * str)) (r : res (list class))   (* enigma_dir::read of a directory with these files *)
 | CReadPath (p : fs_node) (r : res (list class))           (* enigma_dir::read of a missing path / a plain file *)
-| CWriteDir (M : list class) (r : res (list (str * str))). (* enigma_dir::write alone (names special to the file system) *)
+| CWriteDir (M : list class) (r : res (list (str * str))) (* enigma_dir::write alone (names special to the file system) *)
+| CBytes (text : str) (bs : list N)                        (* the UTF-8 bytes of a Rust String (round 7) *)
+| CWriteOneBytes (M : list class) (name : str) (r : res (list N)). (* the raw bytes enigma_file::write_one hands to its writer *)
 
 Definition check (c : case) : bool :=
   match c with
@@ -88,4 +90,6 @@ Definition check (c : case) : bool :=
   | CReadDir d r => res_eqb classes_eqb (read_dir d) r
   | CReadPath p r => res_eqb classes_eqb (read_path p) r
   | CWriteDir M r => dir_res_eqb (write_dir M) r
+  | CBytes t bs => list_eqb N.eqb (utf8_encode t) bs
+  | CWriteOneBytes M name r => res_eqb (list_eqb N.eqb) (write_one_bytes M name) r
   end.
